@@ -2,7 +2,7 @@
    chunk prefix is a function of the consumed text).  Byte level: push_bytes with the carry-over
    buffer pushes exactly the lossy decoding of the consumed bytes.  Pipe level: the emitted frames
    are `frames_whole (concat chunks)`: a function of the body alone. *)
-From RipV Require Import Base.Prelude Base.Utf8 Model.Sse Proofs.Utf8Proofs.
+From RipV Require Import Base.Prelude Base.Utf8 Base.Json Model.Sse Proofs.Utf8Proofs.
 
 Definition no_nl (s : str) : Prop := forallb (fun c => negb (c =? NL)) s = true.
 
@@ -451,7 +451,7 @@ Qed.
 End Proofs.
 
 (* ---------- S11: the code before the repairs is not chunking invariant ---------- *)
-Definition cls0 : option str -> str -> cls := fun _ _ => CInvalid 0.
+Definition cls0 : option str -> str -> cls := fun _ _ => CInvalid [].
 (* "data: x" E2 82 "A\n\n" : the truncated 3-byte sequence E2 82 followed by 'A' *)
 Definition s11_body : list N := [100; 97; 116; 97; 58; 32; 120; 226; 130; 65; 10; 10].
 Definition s11_split : list (list N) := [[100; 97; 116; 97; 58; 32; 120]; [226; 130; 65; 10; 10]].
@@ -480,14 +480,14 @@ Proof. exists [s11_body], s11_split. split; [reflexivity|]. vm_compute. discrimi
 (* non-vacuity: a body with CRLF, a comment, an event name, multi-line data, a 3-byte character cut
    by the chunking, an invalid byte, [DONE] and trailing garbage gives the same 3 frames *)
 Definition demo_cls : option str -> str -> cls :=
-  fun ev raw => match raw with 123 :: _ => CEvent 7 0 0 (Some [104; 105]) | _ => CInvalid 9 end.
+  fun ev raw => match raw with 123 :: _ => CEvent (JNum [55]) [] [] (Some [104; 105]) | _ => CInvalid [[57]] end.
 (* ": c\r\nevent: e\r\ndata: {\r\ndata: \xE2\x82\xAC\xFF\r\n\r\ndata: [DONE]\n\ndata: z\n\n" *)
 Definition demo_body : list N :=
   [58; 32; 99; 13; 10] ++ [101; 118; 101; 110; 116; 58; 32; 101; 13; 10] ++ [100; 97; 116; 97; 58; 32; 123; 13; 10]
   ++ [100; 97; 116; 97; 58; 32; 226; 130; 172; 255; 13; 10; 13; 10]
   ++ [100; 97; 116; 97; 58; 32; 91; 68; 79; 78; 69; 93; 10; 10] ++ [100; 97; 116; 97; 58; 32; 122; 10; 10].
 Definition demo_expected : list frame :=
-  [FProv 5 2 (Some [101]) None (Some 7) 0 0; FDelta 6 [104; 105]; FProv 7 0 None (Some S_DONE) None 0 0].
+  [FProv 5 2 (Some [101]) None (Some (JNum [55])) [] []; FDelta 6 [104; 105]; FProv 7 0 None (Some S_DONE) None [] []].
 Lemma demo_nontrivial :
   frames_whole demo_cls 5 demo_body = demo_expected
   /\ frames_of demo_cls FIXED 5 (map (fun b => [b]) demo_body) = demo_expected
